@@ -15,7 +15,7 @@ pub const SENDERS: [&str; 12] = [
     "airdrop",
 ];
 
-pub const WORLDS: [&str; 4] = ["fresh", "evolved", "transferred", "abandoned"];
+pub const WORLDS: [&str; 5] = ["fresh", "evolved", "transferred", "abandoned", "pending"];
 
 const SETUP: &[&str] = &[
     "reset 100",
@@ -92,6 +92,14 @@ const ABANDON: &[&str] = &[
 ];
 
 /// (operation template with `S` = sender, needs a preceding `gift S usei 1000000`)
+/// nominations outstanding: user5 is the nominee of all four contracts and has not accepted
+const PENDING: &[&str] = &[
+    "hub owner setowner user5",
+    "reward owner setowner user5",
+    "disp owner setowner user5",
+    "reg owner setowner user5",
+];
+
 const CELLS: &[(&str, bool)] = &[
     // hub
     ("bond b S 1 usei 1000", true),
@@ -182,6 +190,11 @@ fn replay<A: Write, B: Write>(em: &mut Emitter<A, B>, world: &str, cell_note: &s
         }
         "abandoned" => {
             for l in ABANDON {
+                em.emit_line(l);
+            }
+        }
+        "pending" => {
+            for l in PENDING {
                 em.emit_line(l);
             }
         }
